@@ -326,7 +326,15 @@ func visitInstr(fr *frame, instr ssa.Instruction) continuation {
 		*addr = zero(mustDeref(instr.Type()))
 
 	case *ssa.MakeSlice:
-		slice := make([]value, asInt64(fr.get(instr.Cap)))
+		capV := fr.get(instr.Cap)
+		if _, sym := capV.(symInt); sym {
+			// a symbolic capacity with a concrete length (make([]T, 0, len(symbolic))): the capacity is only a
+			// reservation, the slice grows by append
+			if _, symLen := fr.get(instr.Len).(symInt); !symLen {
+				capV = fr.get(instr.Len)
+			}
+		}
+		slice := make([]value, asInt64(capV))
 		tElt := instr.Type().Underlying().(*types.Slice).Elem()
 		for i := range slice {
 			slice[i] = zero(tElt)
